@@ -11,6 +11,10 @@ import (
 // (the moment the predictions were made: nothing the parsers surface, and not the feed's timestamp).
 var TripUpdateTimestamp uint64
 
+// TripUpdateDelay, when not 0, is written into the optional trip-level TripUpdate.delay field of every trip update
+// (nothing the parsers surface: the delays they surface are those of the stop time events).
+var TripUpdateDelay int32
+
 // DupEntityIDs makes every trip update and vehicle entity carry the same FeedEntity.id.
 var DupEntityIDs bool
 
@@ -176,6 +180,10 @@ func Entity(i int, e Ent) *gtfsrt.FeedEntity {
 		if TripUpdateTimestamp != 0 {
 			ts := TripUpdateTimestamp
 			tu.Timestamp = &ts
+		}
+		if TripUpdateDelay != 0 {
+			d := TripUpdateDelay
+			tu.Delay = &d
 		}
 		fe.TripUpdate = tu
 	case "vp":
